@@ -181,11 +181,21 @@ def check_gaussians(ck):
             if n_prec_letters == 2:
                 row, col = pl[0], pl[1]
                 feat = dl[-1]
-                ok = (row == feat and row not in out and col in out and out[-1] == col)
-                run.check(ok, 'R-EIN', 'Gaussian.log_pdf: whitening contracts the ROW index of the precision Cholesky factor', s.loc,
+                # which factor is stored?  scikit-learn's _compute_precision_cholesky returns the UPPER factor P = L^-T (Sigma^-1 = P P^T): the
+                # whitened vector is P^T (y - mu), a sum over the ROW index.  inv(cholesky(Sigma)) is the LOWER factor L^-1: sum over the COLUMN index.
+                conv = stored_factor_convention(A, D + 'gaussian::Gaussian.__post_init__')
+                if conv is None:
+                    raise AnalysisError('Gaussian.__post_init__: how the stored precision Cholesky factor is computed is no longer recognised')
+                if conv == 'upper':
+                    ok = (row == feat and row not in out and col in out and out[-1] == col)
+                else:
+                    ok = (col == feat and col not in out and row in out and out[-1] == row)
+                want = 'ROW' if conv == 'upper' else 'COLUMN'
+                run.check(ok, 'R-EIN', f'Gaussian.log_pdf: whitening contracts the {want} index of the stored ({conv}) precision Cholesky factor', s.loc,
                           f'{st["sub"]!r}: P[{row},{col}] x[{feat}] -> [{out}]',
-                          f'{st["sub"]!r} contracts index {"column" if col == feat else "?"} of the precision Cholesky factor; scikit-learn\'s factor satisfies '
-                          f'Sigma^-1 = P P^T, so the whitened vector is P^T (y - mu) (sum over the row index)',
+                          f'{st["sub"]!r} contracts the wrong index of the precision Cholesky factor: the stored factor is the {conv} one '
+                          f'({"Sigma^-1 = P P^T, whitened vector P^T (y - mu)" if conv == "upper" else "Sigma^-1 = Q^T Q, whitened vector Q (y - mu)"}); '
+                          f'the density evaluated is that of a transposed covariance factor',
                           construct=f'R-EIN::{q}::cholesky-row')
             elif n_prec_letters == 1:
                 ok = pl[0] == dl[-1] and pl[0] in out and out == dl
@@ -534,6 +544,48 @@ def check_cacg(ck):
     ck.resolved += 1
     run.check(ok, 'R-LIN', 'cACG.log_determinant: sum of log eigenvalues over the eigenvalue axis', A.prog.func(q2).loc(), '',
               'log-determinant is not np.sum(np.log(covariance_eigenvalues), axis=-1)', construct=f'R-LIN::{q2}::form')
+
+
+def stored_factor_convention(A, qual):
+    """'upper' (P = L^-T, scikit-learn's _compute_precision_cholesky) or 'lower' (L^-1 = inv(cholesky(Sigma))) for the value stored as
+    self.precision_cholesky; a transposition of the last two axes flips it; None if not recognised"""
+    from ..walk import axis_reordering
+    fn = A.prog.func(qual)
+    g = A.graphs.get(fn)
+    vals = [e.term for e in g.events if e.kind == 'setattr' and e.data.get('attr') == 'precision_cholesky']
+    if not vals:
+        return None
+    t = strip_views(vals[-1])
+    flip = False
+    for _ in range(8):
+        if is_call_to(t, 'numpy.reshape'):
+            t = strip_views(call_arg(t, 0))
+            continue
+        r = axis_reordering(t)
+        if r is not None and r[1] in (('swap', frozenset((-1, -2))), ('reverse',)):
+            flip = not flip
+            t = strip_views(r[0])
+            continue
+        break
+    conv = None
+    if (call_parts(t)[0] or '').endswith('_compute_precision_cholesky'):
+        conv = 'upper'
+    elif is_call_to(t, 'numpy.linalg.inv', 'scipy.linalg.inv'):
+        inner = strip_views(call_arg(t, 0))
+        if is_call_to(inner, 'numpy.linalg.cholesky', 'scipy.linalg.cholesky'):
+            lower = call_parts(inner)[2].get('lower')
+            upper_kw = call_parts(inner)[2].get('upper')
+            is_lower = True
+            if call_parts(inner)[0].startswith('scipy'):
+                is_lower = lower is not None and const_val(lower) is True      # scipy's default is the upper factor U (Sigma = U^T U), inv(U) = L^-T
+            if upper_kw is not None and const_val(upper_kw) is True:
+                is_lower = False
+            conv = 'lower' if is_lower else 'upper'
+    if conv is None:
+        return None
+    if flip:
+        conv = 'upper' if conv == 'lower' else 'lower'
+    return conv
 
 
 def check(run):
